@@ -108,7 +108,7 @@ struct BmpStream : Family {
 		if (o != OkOut) ctx.fail("C08.valid", "bitmap returned by the reader fails the library's own validation: " + what);
 		// value semantics: from here on the run works on the object itself, a copy, or an object moved out of a copy
 		if (plan.seed % 3) {
-			o = callLib(plan, [&] { BitmapFile c(bf); if (plan.seed % 3 == 1) { BitmapFile d(std::move(c)); bf = d; } else bf = c; }, &what);
+			o = callLib(plan, [&] { cloneValue(bf, plan.seed % 3); }, &what);
 			if (o != OkOut) ctx.fail("C08.geometry", "copying a bitmap failed: " + what);
 		}
 		// geometry
@@ -453,7 +453,7 @@ struct PrtStream : Family {
 		if (posAfter != bytes.size()) ctx.fail("C10.roundtrip-equal", "reader consumed " + std::to_string(posAfter) + " of " + std::to_string(bytes.size()) + " bytes");
 		// value semantics: the rest of the run works on the object itself, a copy, or an object moved out of a copy
 		if (plan.seed % 3) {
-			o = callLib(plan, [&] { ArtFile c(art); if (plan.seed % 3 == 1) { ArtFile d(std::move(c)); art = d; } else art = c; }, &what);
+			o = callLib(plan, [&] { cloneValue(art, plan.seed % 3); }, &what);
 			if (o != OkOut) ctx.fail("C10.roundtrip-equal", "copying an ArtFile failed: " + what);
 		}
 		// cross-field rules on the result
